@@ -33,7 +33,13 @@ def main(argv=None):
   chk = report.Check(pid, tier, seed)
   try:
     prog = model.program()
-    rc = mod.run(chk, prog, tier)
+    meta = mod.run(chk, prog, tier)
+    if tier == 'thorough' and not args.replay and not os.environ.get('VERIF_NO_EVIDENCE'):
+      from sa import selftest
+      selftest.sweep(pid, chk)
+      meta['explanation'] += (' Thorough tier: the same rules are additionally re-run on source variants derived from the current tree '
+                              '(killing mutants must fire, equivalent rewrites must stay silent; variants are analysed statically, never executed).')
+    rc = chk.finish(**meta)
     if args.replay:
       with open(args.replay) as f:
         rec = json.load(f)
